@@ -286,6 +286,21 @@ theorem C11_handles (pre : List TOp) (op : TOp) (hv : HandlesValid (pre ++ [op])
     | frame t fa => simp [TOp.toPOp] at hp
     | frameSym t nt fa => simp [TOp.toPOp] at hp
 
+/-- The profile's own tables after any history with valid handles: the kernel table is the table model run on the
+kernel calls, there is one table per `add_process` call, and process `p`'s table is the table model run on the calls
+addressed to `p` — so `C11_live`, `C11_nonoverlap`, `C11_refines` (statements about `run`) hold for the kernel table
+and for every process table of the profile, including processes created late and processes without threads. -/
+theorem C11_thread_tables (ops : List TOp) (hv : HandlesValid ops) :
+    (trun ops).kernel = run (kernelOps (mappingOps ops)) ∧
+    (trun ops).procs.length = procCount ops ∧
+    ∀ p, p < procCount ops → (trun ops).procs[p]? = some (run (procOps p (mappingOps ops))) := by
+  have inv := trun_inv ops hv
+  refine ⟨by rw [inv.kernel, prun_kernel], inv.nproc, ?_⟩
+  intro p hp
+  have hlen : p < (trun ops).procs.length := by rw [inv.nproc]; exact hp
+  have hget : (trun ops).procs[p]? = some (trun ops).procs[p] := List.getElem?_eq_getElem hlen
+  rw [hget, inv.procs p _ hget, prun_proc]
+
 /-- A thread's owner never changes: later calls of any kind leave `threadOwner` of an existing handle alone. -/
 theorem C11_owner_stable (ops more : List TOp) (t p : Nat) (h : threadOwner ops t = some p) :
     threadOwner (ops ++ more) t = some p := by
